@@ -300,7 +300,7 @@ impl Monitor for C13 {
         "C13"
     }
     fn plan(&self, cfg: &Cfg) -> u64 {
-        (3 * SHAPES.len()) as u64 * cfg.tier.pick(4, 8)
+        (3 * SHAPES.len()) as u64 * cfg.tier.pick(4, 32)
     }
     fn trial(&self, cfg: &Cfg, idx: u64, out: &mut TrialOut) {
         let mut rng = Rng::for_trial(cfg.seed, "C13", idx);
